@@ -243,3 +243,13 @@ def enclosing_loops(fi, nid):
 def norm_src(node):
     """Position-free normalised source of an ast node."""
     return ast.unparse(node)
+
+
+def call_arg(call, index, name):
+    """ast of the argument given positionally at `index` or by keyword `name` (None if absent)."""
+    if len(call.args) > index and not any(isinstance(a, ast.Starred) for a in call.args[:index + 1]):
+        return call.args[index]
+    for kw in call.keywords:
+        if kw.arg == name:
+            return kw.value
+    return None
